@@ -356,3 +356,69 @@ func (s *Session) Burst(pool []Req, goroutines, each int, r *vk.Rand) {
 	}
 	s.fail("lock-left-held:"+s.T.Name+":burst", s.T.Name+": after a burst of concurrent requests the mutex stays locked with no request in flight", Req{}, Outcome{})
 }
+
+// Convoy queues request a and then request b behind the target's own mutex,
+// which the harness holds meanwhile, and then lets them go: a proceeds first
+// (writers are served in arrival order), so b runs in a state that changed
+// after b passed whatever it checked before asking for the lock (the REST
+// state gate, guards placed ahead of the lock). The C14 oracle is applied to
+// both requests and to the target afterwards.
+func (s *Session) Convoy(a, b Req) {
+	if s.Dead {
+		return
+	}
+	got := false
+	for i := 0; i < 3000 && !got; i++ {
+		if got = s.T.TryLock(); !got {
+			time.Sleep(time.Millisecond)
+		}
+	}
+	if !got {
+		s.fail("lock-left-held:"+s.T.Name+":before-convoy", s.T.Name+": the mutex stays locked with no request in flight", Req{}, Outcome{})
+		return
+	}
+	for _, rq := range []Req{a, b} {
+		if s.Journal != nil {
+			j, _ := json.Marshal(map[string]interface{}{"k": "CONVOY " + rq.Method + " " + routeOf(rq.URL), "target": s.T.Name, "state": s.State, "class": rq.Class, "url": trunc(rq.URL, 300), "body": trunc(rq.Body, 300)})
+			s.Journal.Write(append(j, '\n'))
+		}
+		s.Log = append(s.Log, Req{Method: rq.Method, URL: trunc(rq.URL, 200), Body: trunc(rq.Body, 200), Class: "convoy|" + rq.Class})
+	}
+	type done struct {
+		rq Req
+		o  Outcome
+	}
+	ch := make(chan done, 2)
+	go func() { ch <- done{a, do(s.T, a, 30*time.Second)} }()
+	time.Sleep(12 * time.Millisecond)
+	go func() { ch <- done{b, do(s.T, b, 30*time.Second)} }()
+	time.Sleep(12 * time.Millisecond)
+	s.T.Unlock()
+	s.Res.Count("convoys", 1)
+	for i := 0; i < 2; i++ {
+		d := <-ch
+		s.Res.Count(fmt.Sprintf("status_%dxx", d.o.Status/100), 1)
+		switch {
+		case d.o.Panic != "":
+			s.fail("handler-panic:"+s.T.Name+":"+d.rq.Method+" "+routeOf(d.rq.URL)+":"+panicClass(d.o.Panic), fmt.Sprintf("%s: handler panicked on %s %s queued behind %s %s in state %s: %s", s.T.Name, d.rq.Method, routeOf(d.rq.URL), a.Method, routeOf(a.URL), s.State, firstLines(d.o.Panic, 2)), d.rq, d.o)
+		case d.o.Hung:
+			s.fail("request-never-returned:"+s.T.Name+":"+d.rq.Method+" "+routeOf(d.rq.URL), fmt.Sprintf("%s: %s %s queued together with %s %s did not return within 30 s in state %s", s.T.Name, d.rq.Method, routeOf(d.rq.URL), a.Method, routeOf(a.URL), s.State), d.rq, d.o)
+		}
+	}
+	if s.Dead {
+		return
+	}
+	lv := do(s.T, Req{Method: "GET", URL: s.T.Liveness}, 20*time.Second)
+	if lv.Hung || lv.Panic != "" || lv.Status == 0 {
+		s.fail("wedged-after:"+s.T.Name+":convoy", fmt.Sprintf("%s: after %s %s and %s %s ran back to back the liveness request hangs=%v status=%d", s.T.Name, a.Method, routeOf(a.URL), b.Method, routeOf(b.URL), lv.Hung, lv.Status), b, lv)
+		return
+	}
+	for i := 0; i < 2000; i++ {
+		if s.T.TryLock() {
+			s.T.Unlock()
+			return
+		}
+		time.Sleep(time.Millisecond)
+	}
+	s.fail("lock-left-held:"+s.T.Name+":convoy", fmt.Sprintf("%s: after %s %s and %s %s the mutex stays locked with no request in flight", s.T.Name, a.Method, routeOf(a.URL), b.Method, routeOf(b.URL)), b, Outcome{})
+}
